@@ -16,7 +16,7 @@ INFO = {
         'non-finite number to count as a violation. No path may end in any other exception either. Phi^-1((1+1/N)/2) is evaluated by the library '
         'for each concrete N in the run.'),
     'bounds': {
-        'quick': 'five models; rate: shapes (1,1),(2,1),(1,1,1),(2,2),(3,1) x {strict, tie, mixed} outcomes; PL/BT also (8,8), six and eight single-player teams, (2,1,2,1); predictions: (1,1),(2,1),(1,1,1),(2,2,2),(1,1,1,1),(8,8)',
+        'quick': 'five models; rate: shapes (1,1),(2,1),(1,1,1),(2,2),(3,1) x {strict, tie, mixed} outcomes; PL/BT also (8,8), six and eight single-player teams, (2,1,2,1); rate with tau given per call on a tau = 0 model (sigma = 0 allowed); predictions: (1,1),(2,1),(1,1,1),(2,2,2),(1,1,1,1),(8,8)',
         'thorough': '+ (16,16) and 8 single-player teams (guard obligations only), TM (2,2) ties',
     },
     'outside': ['overflow / underflow of + - * / ** (magnitudes argued: |mu| <= 20*16*beta, c >= sqrt(2)*beta, so every intermediate is within (20*16)^2 of beta^2 scale)',
